@@ -8,6 +8,7 @@ import Fbr.Lemmas.OvlHoare
 import Fbr.Lemmas.OvlInv
 import Fbr.Lemmas.OvlSimLookup
 import Fbr.Lemmas.OvlSimRO
+import Fbr.Lemmas.OvlOps
 
 namespace Fbr.Thm.C11
 open Fbr.Ovl
@@ -26,28 +27,38 @@ theorem set_opaque_sets (L : Layer) (p : Path) (m o x : Nat) (h : L p = .dir m o
 
 /-- After ANY history of operations (modifying or not, successful or failed) a freshly started
     overlay over the same directories shows exactly the overlayfs union of what is on disk then
-    — at every path.  (The layer roots stay directories along every history: `run_rootsOK`.) -/
-theorem restart_view_is_merge (d : Disk) (hr : d.RootsOK) (ops : List Op) (p : List Name) :
+    — at every path.  (The layers stay well-formed along every history: `run_wf`.) -/
+theorem restart_view_is_merge (d : Disk) (hr : d.RootsOK) (ht : d.TreesOK) (ops : List Op) (p : List Name) :
     liveView (importFs (run (importFs d) ops).disk) p = merge (run (importFs d) ops).disk p.reverse := by
-  have hroots := run_rootsOK d hr ops
-  have h := import_consistent _ hroots
+  have hwf := run_wf d hr ht ops
+  have h := import_consistent _ hwf.1 hwf.2
   rw [consistent_view_is_merge _ h.1, h.2]
 
 /-- Restart equals live whenever the live forest is a valid cache of the disk. -/
 theorem restart_view_eq_live_of_consistent (s : St) (hc : Consistent s) (p : List Name) :
     liveView (importFs s.disk) p = liveView s p := by
-  have h := import_consistent s.disk hc.roots
+  have h := import_consistent s.disk hc.roots hc.trees
   rw [consistent_view_is_merge _ h.1, h.2, consistent_view_is_merge s hc]
 
-/-- `restart_view_eq_live`, PARTIAL: proved for histories of non-modifying operations (which do
-    change the in-memory forest by loading directories).  For histories with modifying operations
-    the missing link is the preservation of `Consistent` (see `C10.view_is_merge_partial`); the
-    restart side is fully proved (`restart_view_is_merge`). -/
-theorem restart_view_eq_live_partial (d : Disk) (hr : d.RootsOK) (ops : List Op)
-    (hops : ∀ op ∈ ops, op.isModifying = false) (p : List Name) :
+/-- `restart_view_eq_live`, PARTIAL: after any history of covered operations (`Op.covered`: all
+    non-modifying ones, and open-for-writing / write / chmod / truncate / setxattr / removexattr
+    with their copy-ups) a freshly started overlay over the same directories shows, at every
+    path, exactly what the running instance shows.  Missing: histories containing create, mkdir,
+    mknod, symlink, link, unlink, rmdir (see `C10.view_is_merge_partial`); the restart side is
+    fully proved for those too (`restart_view_is_merge`). -/
+theorem restart_view_eq_live_partial (d : Disk) (hr : d.RootsOK) (ht : d.TreesOK) (ops : List Op)
+    (hops : ∀ op ∈ ops, op.covered = true) (p : List Name) :
     liveView (importFs (run (importFs d) ops).disk) p = liveView (run (importFs d) ops) p := by
-  have h0 := import_consistent d hr
-  have h := run_ro_cd d ops hops _ ⟨h0.1, h0.2⟩
-  exact restart_view_eq_live_of_consistent _ h.1 p
+  have h0 := import_consistent d hr ht
+  exact restart_view_eq_live_of_consistent _ (run_cons ops hops _ h0.1) p
+
+/-- Copy-up keeps the cache valid: after `copy_node_up(p)` (a file, symlink, special file or
+    directory with any chain of missing parent directories) the forest is still exactly what a
+    restart would compute, and on success the node is backed by the upper layer. -/
+theorem copy_up_keeps_cache (s : St) (hc : Consistent s) (p : Path) :
+    (∀ s', copyNodeUp p s = .ok () s' → Consistent s' ∧ UpAt p s') ∧
+    (∀ e s', copyNodeUp p s = .err e s' → Consistent s') := by
+  have := copyNodeUp_cons p s hc
+  exact ⟨fun s' h => this.1 () s' h, fun e s' h => this.2 e s' h⟩
 
 end Fbr.Thm.C11
